@@ -144,7 +144,7 @@ func c18Case(r *fw.Rand, index string) fw.Case {
 		case 5, 6:
 			lo := c10Base + int64(r.Intn(40))*1000
 			pred := []string{"-", "-", "host=a"}[r.Intn(3)]
-			ops = append(ops, fmt.Sprintf("del %s %s %d %d", c10Meas[r.Intn(len(c10Meas))], pred, lo, lo+int64(r.Intn(15))*1000))
+			ops = append(ops, fmt.Sprintf("%s %s %s %d %d", []string{"del", "del", "delprobe"}[r.Intn(3)], c10Meas[r.Intn(len(c10Meas))], pred, lo, lo+int64(r.Intn(15))*1000))
 		case 7:
 			ops = append(ops, "reopen")
 		default:
